@@ -1683,8 +1683,48 @@ pub fn run_ledger(when: &str) {
 
 /// Node ownership monitor (C11) fed by the claim/release events of the hooks.
 pub fn event_hook(id: u32, arg: usize) {
-    let id = id as usize;
     let me = rt::current();
+    if id == verif_rt::OWNER_ONLY_STORE {
+        // `active_addr` and `space_offer` of a node are written by the thread that owns the node,
+        // and by nobody else ("bookkeeping is never used by two threads at a time").
+        let verdict = w(|w| {
+            let node = w.nodes_seen.range(..=arg).next_back().copied()?;
+            if arg - node > 4096 {
+                return None;
+            }
+            *w.extra_counts.entry("owner_only_store_checks".into()).or_insert(0) += 1;
+            match w.node_owner.get(&node) {
+                Some(&o) if o == me => None,
+                Some(&o) => Some((Some(o), 0, 0)),
+                None => {
+                    // Released: an alarm only if another thread could claim the node at this very
+                    // instant (unused, or cooling down with no writer inside), i.e. some schedule
+                    // has two threads using it at once.
+                    let info = arc_swap::verif::nodes().into_iter().find(|n| n.addr == node)?;
+                    let claimable = info.in_use == 0 || (info.in_use == 2 && info.active_writers == 0);
+                    if claimable {
+                        Some((None, info.in_use, info.active_writers))
+                    } else {
+                        None
+                    }
+                }
+            }
+        });
+        if let Some((o, in_use, aw)) = verdict {
+            rt::fail(
+                "node-monitor",
+                match o {
+                    Some(o) => format!("thread {} wrote the helping bookkeeping of a node that thread {} owns", me, o),
+                    None => format!(
+                        "thread {} wrote the helping bookkeeping of a node it has released and that any thread can claim at this instant (in_use={}, active_writers={})",
+                        me, in_use, aw
+                    ),
+                },
+            );
+        }
+        return;
+    }
+    let id = id as usize;
     if id == probes::NODE_CLAIMED || id == probes::NODE_CREATED {
         let prev = w(|w| {
             let p = w.node_owner.insert(arg, me);
